@@ -323,7 +323,12 @@ namespace sqf::runtime
                     { // it is not
                         // Lookup inherited node and replace it
                         auto nav = lookup_in_logical(inherited);
-                        replaced.id_parent_inherited = nav.m_index;
+
+                        // A class may neither inherit from itself nor from one of its descendants
+                        if (!nav.inherits_from_or_is(replaced.id))
+                        {
+                            replaced.id_parent_inherited = nav.m_index;
+                        }
                     }
 
                     // Return found container as confignav
@@ -344,6 +349,19 @@ namespace sqf::runtime
                 auto& container = m_confighost.m_containers.at(m_index);
                 container.push_back(target, config::invalid_id);
             }
+        }
+        bool inherits_from_or_is(size_t id) const
+        {
+            size_t index = m_index;
+            while (index != config::invalid_id)
+            {
+                if (index == id)
+                {
+                    return true;
+                }
+                index = m_confighost.m_containers.at(index).id_parent_inherited;
+            }
+            return false;
         }
         bool has_inherited_with_name(std::string target) const
         {
